@@ -108,7 +108,11 @@ impl<A: Clone + Send + 'static> StreamLoop<A> {
                 *node_update = Box::new(move || {
                     s.with_firing_op(|firing_op: &mut Option<A>| {
                         if let Some(ref firing) = firing_op {
-                            s_out.upgrade().unwrap()._send(firing.clone());
+                            // the loop's stream may have been dropped already, by a handler that ran
+                            // earlier in this transaction (its node was queued before)
+                            if let Some(s_out) = s_out.upgrade() {
+                                s_out._send(firing.clone());
+                            }
                         }
                     });
                 });
